@@ -11,6 +11,7 @@ from sa.astutil import (anorm, call_name, calls_in, dotted, norm, walk_no_nested
 from sa.loader import AnalysisError
 from sa.tables import columns_of_slice
 from checks.recordloop import RecordLoop
+from checks import common
 
 ATTR_COMP = {'res_num': 'number', 'chain_id': 'chain', 'icode': 'icode', 'res_name': 'resname',
              'name': 'atomname', 'residue_type': 'restype', 'type': 'grouptype',
@@ -363,5 +364,10 @@ def run(ctx):
            and len([n for n in sa.body if not (isinstance(n, ast.Expr)
                                                and isinstance(n.value, ast.Constant))]) == 2,
            'the sorted order is only used to renumber atoms (serials are inert: C07.R2)', cc, sa)
+    # ------------------------------------------------------------------ R4
+    # identifiers given on the command line (-i) are compared with the raw
+    # record columns: the parser must not normalise them (chain ids are case
+    # sensitive, "a" and "A" are different chains)
+    common.check_res_string_parse(ctx, 'C06.R4', prog)
     ctx.assume('that relabelling leaves every float bit-identical is not decided (atom order '
                'inside a list can change summation order)')
